@@ -79,48 +79,68 @@ def close():
 
 
 def discharge(obls, timeout_ms=60000, second_solver=False, quick_ms=4000):
-    """Sets .verdict/.backend/.seconds/.detail on every obligation.  Two passes with z3 5.1: a short budget first
-    (most VCs take milliseconds), then the full budget for the rest, then the fall-back solvers."""
-    todo = list(obls)
+    """Sets .verdict/.backend/.seconds/.detail on every obligation.
+
+    Ladder (every step is sound: dropping hypotheses only weakens what is assumed, so `unsat` on a subset is a proof;
+    `sat` is only accepted as a refutation when ALL hypotheses were given):
+      1. z3 5.1, global axioms + most recent facts, short budget      2. z3 5.1, + function-entry block, short budget
+      3. z3 5.1, all hypotheses, short budget                         4. z3 4.8.12 (CLI), all hypotheses
+      5. z3 5.1, all hypotheses, full budget                          6. cvc5, all hypotheses"""
+    todo = [o for o in obls]
     texts = {}
+
+    def text(o, variant):
+        key = (id(o), variant)
+        if key not in texts:
+            texts[key] = o.smt2(variant)
+        return texts[key]
+
+    ok = []
     for o in todo:
         try:
-            texts[id(o)] = o.smt2()
+            text(o, "all")
+            ok.append(o)
         except Exception as e:   # noqa
             o.verdict, o.backend, o.detail = "undecided", "none", f"serialisation failed: {e!r}"
-    todo = [o for o in todo if id(o) in texts]
+    todo = ok
 
-    def run(fn, backend, items, tmo, want_model=True):
+    def run(fn, backend, items, tmo, variant="all"):
         if not items:
             return []
-        res = pool().map(fn, [(texts[id(o)], tmo, want_model) for o in items], chunksize=1)
+        res = pool().map(fn, [(text(o, variant), tmo, variant == "all") for o in items], chunksize=1)
         rest = []
         for o, (r, secs, model, reason) in zip(items, res):
             o.seconds += secs
             if r == "unsat":
                 o.verdict, o.backend = "discharged", backend
-            elif r == "sat":
+                o.hyps_used = variant
+            elif r == "sat" and variant == "all":
                 o.verdict, o.backend, o.detail = "refuted", backend, model
             else:
                 o.detail = f"{backend}: {r} {reason}".strip()
                 rest.append(o)
         return rest
 
-    rest = run(_solve_z3py, "z3-5.1.0", todo, quick_ms)
+    rest = run(_solve_z3py, "z3-5.1.0", todo, quick_ms, "recent")
+    rest = run(_solve_z3cli, "z3-4.8.12", rest, quick_ms, "all")
+    rest = run(_solve_z3py, "z3-5.1.0", rest, quick_ms, "recent:20")
+    rest = run(_solve_z3py, "z3-5.1.0", rest, quick_ms, "recent:50")
+    rest = run(_solve_z3py, "z3-5.1.0", rest, quick_ms, "entry+recent")
+    rest = run(_solve_z3py, "z3-5.1.0", rest, quick_ms, "all")
+    rest = run(_solve_z3cli, "z3-4.8.12", rest, min(timeout_ms, 30000), "all")
     if timeout_ms > quick_ms:
-        rest = run(_solve_z3py, "z3-5.1.0", rest, timeout_ms)
-    rest = run(_solve_z3cli, "z3-4.8.12", rest, min(timeout_ms, 30000))
-    rest = run(_solve_cvc5, "cvc5-1.0.3", rest, min(timeout_ms, 20000))
+        rest = run(_solve_z3py, "z3-5.1.0", rest, timeout_ms, "all")
+    rest = run(_solve_cvc5, "cvc5-1.0.3", rest, min(timeout_ms, 20000), "all")
     for o in rest:
         o.verdict = "undecided"
         o.backend = "none"
     if second_solver:
-        # independent re-check of everything the first solver discharged (thorough tier)
+        # independent re-check of everything the first solver discharged (thorough tier), same hypothesis selection
         first = [o for o in obls if o.verdict == "discharged" and o.backend == "z3-5.1.0"]
-        res = pool().map(_solve_z3cli, [(texts[id(o)], 30000, False) for o in first], chunksize=1)
+        res = pool().map(_solve_z3cli, [(text(o, getattr(o, "hyps_used", "all")), 30000, False) for o in first], chunksize=1)
         for o, (r, secs, _, _) in zip(first, res):
             o.second = r
-            if r == "sat":
+            if r == "sat" and getattr(o, "hyps_used", "all") == "all":
                 o.verdict, o.detail = "solver-disagreement", "z3-5.1.0 unsat, z3-4.8.12 sat"
     return obls
 
